@@ -4,7 +4,7 @@
     the four axioms of Coq's Reals library). *)
 From Coq Require Import List ZArith Reals Lra Lia Bool Permutation.
 From Flocq Require Import Core.Core Relative IEEE754.BinarySingleNaN IEEE754.Binary IEEE754.Bits.
-From Fabio Require Import Lib.Outcome Model.Weigh Model.WeighF Model.Ring Proofs.Ring.
+From Fabio Require Import Lib.Outcome Model.Weigh Model.WeighF Model.Ring Model.Pick Proofs.Ring Proofs.Pick Proofs.Split.
 Import ListNotations.
 
 Notation fexp64 := (FLT_exp (3 - 1024 - 53) 53).
@@ -50,7 +50,7 @@ Proof.
     change 9007199254740992%Z with (2 ^ 53)%Z. exact Hz.
 Qed.
 
-(* ---------- int(float64(maxSlots) * w) for a weight in [0, 1 + 2^-52] ---------- *)
+(* ---------- int(float64(maxSlots) * w) for a weight in [0, 1 + 2^-16] ---------- *)
 Lemma format_half_20001 : generic_format radix2 fexp64 (IZR 20001 / 2).
 Proof.
   apply generic_format_FLT. exists (Float radix2 20001 (-1)).
@@ -59,12 +59,13 @@ Proof.
   - cbn. lia.
 Qed.
 
+Lemma u52_le : (bpow radix2 (-52) <= / 65536)%R.
+Proof. change (/ 65536)%R with (bpow radix2 (-16)). apply bpow_le. lia. Qed.
+
 Lemma slot_countF_range (w : f64) :
-  fin64 w = true -> (0 <= R64 w <= 1 + bpow radix2 (-52))%R -> (0 <= slot_count arithF w <= 10000)%Z.
+  fin64 w = true -> (0 <= R64 w <= 1 + / 65536)%R -> (0 <= slot_count arithF w <= 10000)%Z.
 Proof.
   intros Hfin [Hw0 Hw1].
-  assert (Hu : (bpow radix2 (-52) <= / 32768)%R).
-  { change (/ 32768)%R with (bpow radix2 (-15)). apply bpow_le. lia. }
   destruct (f64_of_Z_correct 10000 ltac:(cbn; lia)) as [Hc Hcf].
   unfold slot_count. cbv zeta. cbn [a_trunc a_mul a_max_slots a_gt a_zero arithF].
   set (p := b64_mult mode_NE (f64_of_Z 10000) w).
@@ -131,23 +132,23 @@ Qed.
     behaviour of the sort.  What is missing for the unconditional statement on a "sane"
     input domain is exactly the hypothesis: a rounding-error analysis of sumFixed,
     1/sumFixed, f * scale and (1 - sumFixed) / k showing they stay finite within [0, 1]. *)
-Theorem binary64_no_panic_partial (fixed : list f64) order :
+Theorem binary64_no_panic_partial_unrepaired (fixed : list f64) order :
   (Z.of_nat (length fixed) <= 3000000000)%Z ->
   (forall s, Permutation (order s) s) ->
-  (forall w, In w (weigh arithF fixed) -> fin64 w = true /\ (0 <= R64 w <= 1 + bpow radix2 (-52))%R) ->
-  status_of (route_ring arithF order fixed) = Ok tt.
+  (forall w, In w (weigh_unrepaired arithF fixed) -> fin64 w = true /\ (0 <= R64 w <= 1 + bpow radix2 (-52))%R) ->
+  status_of (route_ring_unrepaired arithF order fixed) = Ok tt.
 Proof.
   intros Hlen Hord Hw.
-  assert (Hst : route_status arithF fixed = Ok tt).
-  { unfold route_status. destruct (Nat.eqb (n_fixed arithF fixed) 0); [reflexivity|].
+  assert (Hst : route_status_unrepaired arithF fixed = Ok tt).
+  { unfold route_status_unrepaired. destruct (Nat.eqb (n_fixed arithF fixed) 0); [reflexivity|].
     apply ring_status_ok_of_range.
     - apply Forall_forall. intros n Hn. apply in_map_iff in Hn. destruct Hn as (w & <- & Hin).
-      destruct (Hw w Hin) as [Hf Hr]. now apply slot_countF_range.
-    - rewrite map_length. unfold weigh. cbv zeta.
+      destruct (Hw w Hin) as [Hf Hr]. apply slot_countF_range; [exact Hf|]. pose proof u52_le. lra.
+    - rewrite map_length. unfold weigh_unrepaired. cbv zeta.
       destruct (Nat.eqb (n_fixed arithF fixed) 0); rewrite map_length; exact Hlen. }
-  rewrite <- Hst. unfold route_ring, route_status.
+  rewrite <- Hst. unfold route_ring_unrepaired, route_status_unrepaired.
   destruct (Nat.eqb (n_fixed arithF fixed) 0); [reflexivity|].
-  set (counts := map (slot_count arithF) (weigh arithF fixed)).
+  set (counts := map (slot_count arithF) (weigh_unrepaired arithF fixed)).
   pose proof (ring_status_correct counts (order (indexed counts)) (Hord _)) as H.
   destruct (ring_of_counts (order (indexed counts)) counts); cbn [bind status_of] in *; exact H.
 Qed.
@@ -349,11 +350,11 @@ Proof. intros H. change 1 with (bpow radix2 0). now apply bpow_le. Qed.
 
 (** on the sane domain every weight the binary64 instance computes is finite and
     within [0, 1 + 2^-52] *)
-Theorem binary64_weights_on_domain l :
+Theorem binary64_weights_on_domain_unrepaired l :
   Forall sane_fixed l -> (Z.of_nat (length l) <= 2 ^ 53)%Z ->
-  forall w, In w (weigh arithF l) -> fin64 w = true /\ 0 <= R64 w <= 1 + bpow radix2 (-52).
+  forall w, In w (weigh_unrepaired arithF l) -> fin64 w = true /\ 0 <= R64 w <= 1 + bpow radix2 (-52).
 Proof.
-  intros Hl Hlen w Hin. unfold weigh in Hin. cbv zeta in Hin.
+  intros Hl Hlen w Hin. unfold weigh_unrepaired in Hin. cbv zeta in Hin.
   destruct oneF_ok as [H1r H1f]. destruct zeroF_ok as [H0r H0f].
   pose proof (bpow_gt_0 radix2 (-52)) as Hu52. pose proof (bpow_gt_0 radix2 (-53)) as Hu53.
   assert (Hfmt1 : generic_format radix2 fexp64 1) by (apply (format_IZR 1); cbn; lia).
@@ -498,22 +499,229 @@ Qed.
     instance -- the arithmetic Go executes -- computes finite weights in [0, 1 + 2^-52], every
     slot count lies in [0, S], and weighTargets neither panics nor loops, whatever the sort
     does.  (The lower bound is necessary: 5e-324 is in [0, 1] and crashes, finding F-C04-1.) *)
+Theorem binary64_slot_counts_on_domain_unrepaired (fixed : list f64) :
+  Forall sane_fixed fixed -> (Z.of_nat (length fixed) <= 3000000000)%Z ->
+  Forall (fun n => 0 <= n <= 10000)%Z (map (slot_count arithF) (weigh_unrepaired arithF fixed)).
+Proof.
+  intros Hs Hlen. apply Forall_forall. intros n Hn. apply in_map_iff in Hn. destruct Hn as (w & <- & Hin).
+  destruct (binary64_weights_on_domain_unrepaired fixed Hs ltac:(lia) w Hin) as [Hf Hr].
+  apply slot_countF_range; [exact Hf|]. pose proof u52_le. lra.
+Qed.
+
+Theorem binary64_no_panic_on_domain_unrepaired (fixed : list f64) order :
+  Forall sane_fixed fixed -> (Z.of_nat (length fixed) <= 3000000000)%Z ->
+  (forall s, Permutation (order s) s) ->
+  status_of (route_ring_unrepaired arithF order fixed) = Ok tt.
+Proof.
+  intros Hs Hlen Hord. apply binary64_no_panic_partial_unrepaired; [exact Hlen|exact Hord|].
+  intros w Hin. apply (binary64_weights_on_domain_unrepaired fixed Hs ltac:(lia) w Hin).
+Qed.
+
+Theorem binary64_on_domain_all_unrepaired :
+  (forall l : list f64, Forall sane_fixed l -> (Z.of_nat (length l) <= 2 ^ 53)%Z ->
+     forall w, In w (weigh_unrepaired arithF l) -> fin64 w = true /\ (0 <= R64 w <= 1 + bpow radix2 (-52))%R)
+  /\ (forall fixed : list f64, Forall sane_fixed fixed -> (Z.of_nat (length fixed) <= 3000000000)%Z ->
+       Forall (fun n => 0 <= n <= 10000)%Z (map (slot_count arithF) (weigh_unrepaired arithF fixed)))
+  /\ (forall (fixed : list f64) order,
+       Forall sane_fixed fixed -> (Z.of_nat (length fixed) <= 3000000000)%Z ->
+       (forall s, Permutation (order s) s) ->
+       status_of (route_ring_unrepaired arithF order fixed) = Ok tt)
+  /\ (forall (fixed : list f64) order,
+       (Z.of_nat (length fixed) <= 3000000000)%Z -> (forall s, Permutation (order s) s) ->
+       (forall w, In w (weigh_unrepaired arithF fixed) -> fin64 w = true /\ (0 <= R64 w <= 1 + bpow radix2 (-52))%R) ->
+       status_of (route_ring_unrepaired arithF order fixed) = Ok tt).
+Proof.
+  split; [exact binary64_weights_on_domain_unrepaired|]. split; [exact binary64_slot_counts_on_domain_unrepaired|].
+  split; [exact binary64_no_panic_on_domain_unrepaired|exact binary64_no_panic_partial_unrepaired].
+Qed.
+
+(* non-vacuity: 0.3 (0x3FD3333333333333) is a sane fixed weight, 0 a sane dynamic one *)
+Example sane_fixed_nonvacuous :
+  sane_fixed (f64_of_bits 4599075939470750515) /\ sane_fixed (f64_of_bits 0).
+Proof.
+  split; (split; [reflexivity|]).
+  - right. unfold f64_of_bits, b64_of_bits, binary_float_of_bits. cbn -[bpow IZR].
+    unfold F2R. cbn [Fnum Fexp cond_Zopp]. pose proof (bpow_gt_0 radix2 (-1000)) as Hp.
+    assert (H1 : bpow radix2 (-1000) <= bpow radix2 (-54)) by (apply bpow_le; lia).
+    change (bpow radix2 (-54)) with (/ 18014398509481984)%R in *. lra.
+  - left. cbn. lra.
+Qed.
+
+(* ====================================================================== *)
+(* weighTargets since commit 290c777 on binary64: it never crashes         *)
+(* ====================================================================== *)
+Lemma wmax_R : R64 f64_wmax = 1 + 4503600 * bpow radix2 (-52).
+Proof.
+  unfold f64_wmax, B2R, F2R. cbn [Fnum Fexp cond_Zopp].
+  replace 4503599631874096%Z with (2 ^ 52 + 4503600)%Z by reflexivity. rewrite plus_IZR.
+  replace (IZR (2 ^ 52)) with (bpow radix2 52) by (rewrite <- IZR_Zpower by lia; reflexivity).
+  rewrite Rmult_plus_distr_r, <- bpow_plus. cbn [Z.add]. rewrite Z.pos_sub_diag. cbn [bpow]. lra.
+Qed.
+
+Lemma wmax_bounds : 1 <= R64 f64_wmax <= 1 + / 65536.
+Proof.
+  rewrite wmax_R. pose proof (bpow_gt_0 radix2 (-52)) as Hp.
+  change (bpow radix2 (-52)) with (/ 4503599627370496) in *. lra.
+Qed.
+
+Lemma f64_le_spec x y : fin64 x = true -> fin64 y = true ->
+  (f64_le x y = true -> R64 x <= R64 y).
+Proof.
+  intros Hx Hy. unfold f64_le, b64_compare. rewrite (Bcompare_correct 53 1024 x y Hx Hy).
+  destruct (Rcompare_spec (R64 x) (R64 y)); intros; try discriminate; lra.
+Qed.
+
+(** a weight that passes [t.Weight >= 0 && t.Weight <= 1+1e-9] is a finite binary64
+    (NaN, +Inf, -Inf fail one of the comparisons) in [0, float64(1+1e-9)] *)
+Lemma usable_spec (w : f64) : usable arithF w = true ->
+  fin64 w = true /\ 0 <= R64 w <= R64 f64_wmax.
+Proof.
+  unfold usable. cbn [a_le a_zero a_wmax arithF]. intros H. apply andb_prop in H. destruct H as [H1 H2].
+  assert (Hfin : fin64 w = true).
+  { destruct w as [s|s|s pl e|s m e p]; try reflexivity; exfalso.
+    - destruct s; [vm_compute in H1|vm_compute in H2]; discriminate.
+    - vm_compute in H1. discriminate. }
+  destruct zeroF_ok as [H0r H0f].
+  pose proof (f64_le_spec _ _ H0f Hfin H1) as Ha. rewrite H0r in Ha.
+  pose proof (f64_le_spec w f64_wmax Hfin (eq_refl : fin64 f64_wmax = true) H2) as Hb.
+  split; [exact Hfin|]. split; assumption.
+Qed.
+
+(** weighEvenly: 1 / float64(len) is a finite weight in [0, 1] *)
+Lemma even_weight_ok (n : nat) : (1 <= Z.of_nat n <= 2 ^ 53)%Z ->
+  let w := fdiv (f64_of_Z 1) (f64_of_Z (Z.of_nat n)) in fin64 w = true /\ 0 <= R64 w <= 1.
+Proof.
+  intros Hn. cbv zeta. destruct oneF_ok as [H1r H1f].
+  destruct (f64_of_Z_correct (Z.of_nat n) ltac:(lia)) as [Hnr Hnf].
+  assert (Hn1 : 1 <= IZR (Z.of_nat n)) by (apply IZR_le; lia).
+  assert (Hq : 0 <= 1 / IZR (Z.of_nat n) <= 1).
+  { split; [apply Rlt_le, Rdiv_lt_0_compat; lra|].
+    apply Rmult_le_reg_r with (IZR (Z.of_nat n)); [lra|]. unfold Rdiv.
+    rewrite Rmult_assoc, Rinv_l by lra. lra. }
+  destruct (fdiv_ok (f64_of_Z 1) (f64_of_Z (Z.of_nat n)) 0 ltac:(lia) H1f) as [Hr Hrf].
+  { rewrite Hnr. lra. }
+  { rewrite H1r, Hnr. rewrite Rabs_pos_eq by lra. cbn [bpow]. lra. }
+  rewrite H1r, Hnr in Hr. split; [exact Hrf|]. rewrite Hr. split.
+  - apply round_ge_generic; [apply FLT_exp_valid; reflexivity|apply valid_rnd_round_mode|apply generic_format_0|lra].
+  - apply round_le_generic; [apply FLT_exp_valid; reflexivity|apply valid_rnd_round_mode|apply (format_IZR 1); cbn; lia|lra].
+Qed.
+
+Lemma weigh_even_F l w : In w (weigh_even arithF l) -> (Z.of_nat (length l) <= 2 ^ 53)%Z ->
+  fin64 w = true /\ 0 <= R64 w <= 1.
+Proof.
+  unfold weigh_even. cbv zeta. intros Hin Hlen. apply in_map_iff in Hin. destruct Hin as (f & <- & Hf).
+  assert (Hl1 : (1 <= Z.of_nat (length l))%Z) by (destruct l; [destruct Hf|cbn [length]; lia]).
+  exact (even_weight_ok (length l) (conj Hl1 Hlen)).
+Qed.
+
+Lemma uses_fill_true (A : arith) l : uses_fill A l = true ->
+  weigh A l = weigh_unrepaired A l /\ forallb (usable A) (weigh_unrepaired A l) = true
+  /\ (0 < total_slots (map (slot_count A) (weigh_unrepaired A l)))%Z.
+Proof.
+  intros H. unfold weigh. rewrite H. split; [reflexivity|].
+  unfold uses_fill in H. apply andb_prop in H. destruct H as [_ H]. apply negb_true_iff in H.
+  unfold fallback in H. cbv zeta in H. apply orb_false_iff in H. destruct H as [Ha Hb].
+  apply negb_false_iff in Ha. apply Z.leb_gt in Hb. split; assumption.
+Qed.
+
+(** for EVERY list of binary64 FixedWeights (any bit patterns) the weights weighTargets leaves
+    behind are finite and within [0, float64(1+1e-9)] *)
+Theorem binary64_final_weights (l : list f64) : (Z.of_nat (length l) <= 2 ^ 53)%Z ->
+  forall w, In w (weigh arithF l) -> fin64 w = true /\ 0 <= R64 w <= R64 f64_wmax.
+Proof.
+  intros Hlen w Hin. destruct (uses_fill arithF l) eqn:E.
+  - destruct (uses_fill_true arithF l E) as (Hw & Hu & _). rewrite Hw in Hin.
+    rewrite forallb_forall in Hu. now apply usable_spec, Hu.
+  - unfold weigh in Hin. rewrite E in Hin. destruct (weigh_even_F l w Hin Hlen) as [Hf Hr].
+    pose proof wmax_bounds. split; [exact Hf|lra].
+Qed.
+
+Theorem binary64_final_slot_counts (l : list f64) : (Z.of_nat (length l) <= 2 ^ 53)%Z ->
+  Forall (fun n => 0 <= n <= 10000)%Z (map (slot_count arithF) (weigh arithF l)).
+Proof.
+  intros Hlen. apply Forall_forall. intros n Hn. apply in_map_iff in Hn. destruct Hn as (w & <- & Hin).
+  destruct (binary64_final_weights l Hlen w Hin) as [Hf Hr]. pose proof wmax_bounds.
+  apply slot_countF_range; [exact Hf|lra].
+Qed.
+
+(** C04_binary64_never_panics: for every non-empty list of binary64 fixed weights -- NaN, +-Inf,
+    subnormals, huge values, anything -- of at most 3*10^9 targets and whatever the unstable sort
+    does, weighTargets returns (no panic, no endless probe loop), every slot count lies in
+    [0, 10000], the ring is not empty and has no nil slot, and every later round-robin or random
+    pick returns a target. *)
+Theorem binary64_never_panics (l : list f64) order :
+  (0 < length l)%nat -> (Z.of_nat (length l) <= 3000000000)%Z -> (forall s, Permutation (order s) s) ->
+  exists r, route_ring arithF order l = Ok (weigh arithF l, r)
+    /\ Forall (fun n => 0 <= n <= 10000)%Z (map (slot_count arithF) (weigh arithF l))
+    /\ r <> [] /\ occupancy None r = 0%nat
+    /\ (forall total, exists i c, rr_pick r total = Ok (Some i, c))
+    /\ (forall k, (k < length r)%nat -> exists i, rnd_pick r k = Ok (Some i)).
+Proof.
+  intros Hpos Hlen Hord.
+  pose proof (binary64_final_slot_counts l ltac:(lia)) as Hrange.
+  assert (Hring : exists r, route_ring arithF order l = Ok (weigh arithF l, r) /\ r <> [] /\ occupancy None r = 0%nat).
+  { unfold route_ring. destruct (uses_fill arithF l) eqn:E.
+    - destruct (uses_fill_true arithF l E) as (Hw & _ & Htot). rewrite <- Hw in Htot.
+      set (counts := map (slot_count arithF) (weigh arithF l)) in *.
+      assert (Hnn : Forall (fun n => 0 <= n)%Z counts) by (eapply Forall_impl; [|exact Hrange]; cbn; intros; lia).
+      assert (Hub : Forall (fun n => n <= 10000)%Z counts) by (eapply Forall_impl; [|exact Hrange]; cbn; intros; lia).
+      pose proof (zsum_bound' counts 10000 Hub) as Hz.
+      assert (Hlc : length counts = length l).
+      { unfold counts. rewrite map_length, Hw. unfold weigh_unrepaired. cbv zeta.
+        destruct (Nat.eqb (n_fixed arithF l) 0); apply map_length. }
+      rewrite Hlc in Hz. assert (H45 : (2 ^ 45 = 35184372088832)%Z) by reflexivity.
+      change (total_slots counts) with (used_slots counts) in Htot.
+      rewrite used_slots_sum in Htot by (auto; lia).
+      destruct (ring_of_counts_spec counts (order (indexed counts)) Hnn ltac:(lia) (Hord _)) as (r & Hr & Hl & Hn & _).
+      rewrite Hr. cbn [bind]. exists r. split; [reflexivity|]. split; [|exact Hn].
+      intros ->. cbn [length] in Hl. lia.
+    - exists (map Some (seq 0 (length l))). split; [reflexivity|]. split.
+      + destruct l; [cbn in Hpos; lia|]. cbn [length seq map]. discriminate.
+      + apply occupancy_none_map_some. }
+  destruct Hring as (r & Hr & Hne & Hnil). exists r. split; [exact Hr|]. split; [exact Hrange|].
+  split; [exact Hne|]. split; [exact Hnil|]. split.
+  - intros total. now apply rr_pick_total.
+  - intros k Hk. now apply rnd_pick_total.
+Qed.
+
+(* ---------- the statements about the sane domain, for the code as it is ---------- *)
+Theorem binary64_weights_on_domain l :
+  Forall sane_fixed l -> (Z.of_nat (length l) <= 2 ^ 53)%Z ->
+  forall w, In w (weigh arithF l) -> fin64 w = true /\ 0 <= R64 w <= 1 + bpow radix2 (-52).
+Proof.
+  intros Hs Hlen w Hin. destruct (uses_fill arithF l) eqn:E.
+  - destruct (uses_fill_true arithF l E) as (Hw & _). rewrite Hw in Hin.
+    now apply (binary64_weights_on_domain_unrepaired l Hs Hlen).
+  - unfold weigh in Hin. rewrite E in Hin. destruct (weigh_even_F l w Hin Hlen) as [Hf Hr].
+    pose proof (bpow_gt_0 radix2 (-52)). split; [exact Hf|lra].
+Qed.
+
 Theorem binary64_slot_counts_on_domain (fixed : list f64) :
   Forall sane_fixed fixed -> (Z.of_nat (length fixed) <= 3000000000)%Z ->
   Forall (fun n => 0 <= n <= 10000)%Z (map (slot_count arithF) (weigh arithF fixed)).
+Proof. intros _ Hlen. apply binary64_final_slot_counts. lia. Qed.
+
+Lemma binary64_status_ok (fixed : list f64) order :
+  (Z.of_nat (length fixed) <= 3000000000)%Z -> (forall s, Permutation (order s) s) ->
+  status_of (route_ring arithF order fixed) = Ok tt.
 Proof.
-  intros Hs Hlen. apply Forall_forall. intros n Hn. apply in_map_iff in Hn. destruct Hn as (w & <- & Hin).
-  destruct (binary64_weights_on_domain fixed Hs ltac:(lia) w Hin) as [Hf Hr]. now apply slot_countF_range.
+  intros Hlen Hord. destruct fixed as [|f fixed]; [reflexivity|].
+  destruct (binary64_never_panics (f :: fixed) order ltac:(cbn; lia) Hlen Hord) as (r & Hr & _).
+  rewrite Hr. reflexivity.
 Qed.
 
 Theorem binary64_no_panic_on_domain (fixed : list f64) order :
   Forall sane_fixed fixed -> (Z.of_nat (length fixed) <= 3000000000)%Z ->
   (forall s, Permutation (order s) s) ->
   status_of (route_ring arithF order fixed) = Ok tt.
-Proof.
-  intros Hs Hlen Hord. apply binary64_no_panic_partial; [exact Hlen|exact Hord|].
-  intros w Hin. apply (binary64_weights_on_domain fixed Hs ltac:(lia) w Hin).
-Qed.
+Proof. intros _. apply binary64_status_ok. Qed.
+
+Theorem binary64_no_panic_partial (fixed : list f64) order :
+  (Z.of_nat (length fixed) <= 3000000000)%Z ->
+  (forall s, Permutation (order s) s) ->
+  (forall w, In w (weigh arithF fixed) -> fin64 w = true /\ (0 <= R64 w <= 1 + bpow radix2 (-52))%R) ->
+  status_of (route_ring arithF order fixed) = Ok tt.
+Proof. intros Hlen Hord _. now apply binary64_status_ok. Qed.
 
 Theorem binary64_on_domain_all :
   (forall l : list f64, Forall sane_fixed l -> (Z.of_nat (length l) <= 2 ^ 53)%Z ->
@@ -533,14 +741,34 @@ Proof.
   split; [exact binary64_no_panic_on_domain|exact binary64_no_panic_partial].
 Qed.
 
-(* non-vacuity: 0.3 (0x3FD3333333333333) is a sane fixed weight, 0 a sane dynamic one *)
-Example sane_fixed_nonvacuous :
-  sane_fixed (f64_of_bits 4599075939470750515) /\ sane_fixed (f64_of_bits 0).
+(* ---------- the unrepaired code crashes: refutations (the defects 290c777 repaired) ---------- *)
+(** F-C04-1: `weight Inf` (0x7FF0000000000000), `weight 5e-324` (bit pattern 1): a slot count of
+    -2^63 and make() of a negative length *)
+Theorem unrepaired_weight_inf_crashes :
+  route_status_unrepaired arithF [f64_of_bits 9218868437227405312] = Panic
+  /\ route_status_unrepaired arithF [f64_of_bits 1] = Panic.
+Proof. split; vm_compute; reflexivity. Qed.
+
+(** F-C04-2: two weights of 1e308 (0x7FE1CCF385EBC8A0): the table builds with an EMPTY ring and
+    every pick divides by zero *)
+Theorem unrepaired_weight_overflow_empty_ring :
+  exists ws, route_ring_unrepaired arithF stable_order
+               [f64_of_bits 9214871658872686752; f64_of_bits 9214871658872686752] = Ok (ws, [])
+  /\ forall total, rr_pick [] total = Panic.
 Proof.
-  split; (split; [reflexivity|]).
-  - right. unfold f64_of_bits, b64_of_bits, binary_float_of_bits. cbn -[bpow IZR].
-    unfold F2R. cbn [Fnum Fexp cond_Zopp]. pose proof (bpow_gt_0 radix2 (-1000)) as Hp.
-    assert (H1 : bpow radix2 (-1000) <= bpow radix2 (-54)) by (apply bpow_le; lia).
-    change (bpow radix2 (-54)) with (/ 18014398509481984)%R in *. lra.
-  - left. cbn. lra.
+  eexists. split; [|reflexivity].
+  unfold route_ring_unrepaired. cbv zeta.
+  replace (Nat.eqb (n_fixed arithF [f64_of_bits 9214871658872686752; f64_of_bits 9214871658872686752]) 0) with false
+    by (vm_compute; reflexivity).
+  replace (map (slot_count arithF) (weigh_unrepaired arithF [f64_of_bits 9214871658872686752; f64_of_bits 9214871658872686752]))
+    with [0%Z; 0%Z] by (vm_compute; reflexivity).
+  reflexivity.
 Qed.
+
+(** ... and the same inputs are harmless since 290c777 (corollaries of [binary64_never_panics],
+    stated on the witnesses) *)
+Theorem repaired_witnesses_ok :
+  route_status arithF [f64_of_bits 9218868437227405312] = Ok tt
+  /\ route_status arithF [f64_of_bits 1] = Ok tt
+  /\ route_status arithF [f64_of_bits 9214871658872686752; f64_of_bits 9214871658872686752] = Ok tt.
+Proof. repeat split; vm_compute; reflexivity. Qed.
